@@ -168,5 +168,5 @@ def q_of(point_coords, param_row):
     """homogeneous point record for TLC: val name -> list of fine-unit ints, w = 1"""
     val = {n: [quant(c) for c in cs] for n, cs in point_coords.items()}
     for n, t in param_row.items():
-        val[n] = [int(t) * F]
+        val[n] = [quant(t)]          # (integer rows: t * F; animation frames use fractional parameter values)
     return {"val": val, "w": 1}
